@@ -300,6 +300,10 @@ fn run_session(msgs: &[RefMsg], tape: Vec<u8>, read_boundaries: Vec<usize>, read
     let mut bus = SerialSignBus::try_new(port).expect("port setup");
     let mut transcript: Vec<String> = vec![];
     for (k, m) in msgs.iter().enumerate() {
+        if k % 256 == 255 && crate::util::soft_deadline_passed() {
+            rep.count("loops_cut_short_at_the_soft_deadline");
+            break;
+        }
         let (ev0, w0) = {
             let s = st.borrow();
             (s.log.len(), s.written.len())
